@@ -48,9 +48,21 @@ func genText(t *rapid.T, label string) gen.Cell {
 	case k < 16:
 		n := rapid.SampledFrom([]int{255, 256, 1000, 65534, 65535}).Draw(t, label+"len")
 		return gen.Cell(strings.Repeat("m", n))
-	default:
+	case k < 18:
 		n := rapid.SampledFrom([]int{65536, 65537, 70000, 131071}).Draw(t, label+"over")
 		return gen.Cell(strings.Repeat("o", n))
+	default:
+		// multi-byte characters: the limit is in bytes, not in characters
+		switch rapid.IntRange(0, 3).Draw(t, label+"mb") {
+		case 0:
+			return gen.Cell(strings.Repeat("é", 32767)) // 65534 bytes: within the limit
+		case 1:
+			return gen.Cell(strings.Repeat("a", 65534) + "é") // 65536 bytes, 65535 characters
+		case 2:
+			return gen.Cell(strings.Repeat("é", 40000)) // 80000 bytes, 40000 characters
+		default:
+			return gen.Cell(strings.Repeat("語", 21846)) // 65538 bytes, 21846 characters
+		}
 	}
 }
 
